@@ -84,6 +84,9 @@ def switches(sw: Dict[str, bool]) -> dict:
     cfg = E.deep_merge(cfg, {"t2": {"quality": {"enabled": bool(sw["quality"])}, "hybrid": {"enabled": bool(sw["hybrid"])}}})
     cfg = E.deep_merge(cfg, {"t3": {"allow_reflection": bool(sw["reflection"])}})
     cfg = E.deep_merge(cfg, {"scheduler": {"enabled": bool(sw["scheduler"])}})
+    # (both configurations of a pair) every memory is retrieved on every turn, so a closed subtree that changes which
+    # memories a path looks at (sharding, reader, caps) shows in the records
+    cfg = E.deep_merge(cfg, {"t2": {"sim_threshold": -1.0}})
     return cfg
 
 
